@@ -871,6 +871,13 @@ decLoop:
 			// empty value, which some of them accept
 			continue
 		}
+		if n := len(dec.Value) - len(strings.TrimRight(dec.Value, "\\")); n%2 == 1 || strings.HasSuffix(dec.Value, ";") {
+			// the value ends in an unterminated escape, whose backslash would
+			// escape the "; " that joins the rebuilt declarations and swallow
+			// the declaration that follows, or in an escaped semicolon, which
+			// would be taken for the end of the rebuilt list
+			continue
+		}
 		for _, i := range prefixes {
 			tempProperty = strings.TrimPrefix(tempProperty, i)
 		}
